@@ -349,7 +349,7 @@ def sweep_cases(draw):
     """One algorithm, one input object, a sweep over its parameter (number of bins / bin size) up and down again: what a cache keyed by
     the items but not by the parameter, or an accumulator sized by the first call, gets wrong.  Bin completion gets planted inputs of
     7-10 items on which its search really runs."""
-    alg = draw(st.sampled_from(["bc", "bc", "bc", "ffd", "bfd", "bf", "cg", "ckk", "snp", "rnp", "dp", "multifit", "kk", "greedy",
+    alg = draw(st.sampled_from(["bc", "bc", "bc", "ffd", "bfd", "bf", "cg", "cg", "cg", "ckk", "snp", "rnp", "dp", "multifit", "kk", "greedy",
                                 "threequarters", "twothirds", "decreasing", "cbldm"]))
     pres = draw(st.sampled_from(["list", "list", "array", "dict-str", "names"]))
     if alg == "bc":
@@ -391,7 +391,9 @@ def sweep_cases(draw):
                     c["opts"] = {"partition_difference": draw(st.integers(1, 2))}
                 else:
                     c["opts"] = {"objective": draw(S.objective_specs(c["param"]))}
-            if alg == "cg" and draw(st.booleans()):
+            elif alg == "cg" and draw(st.integers(0, 2)) > 0:
+                c["opts"] = {"objective": calls[i - 1]["opts"]["objective"]}       # the same objective, none of the switches passed
+            if alg == "cg" and draw(st.integers(0, 2)) == 0:
                 c["ticks"] = draw(st.integers(3, 60))
     return {"kind": "history", "sweep": True, "inputs": [{"values": values, "pres": pres, "nseed": draw(st.integers(0, 5))}], "calls": calls}
 
@@ -518,7 +520,7 @@ def legs(tier):
         Leg("parameter-sweeps", evaluate,
             "hypothesis: one algorithm on one shared input object, called with 3-5 parameter values in a row (number of bins / bin size up and "
             "down; bin completion on planted 7-10 item inputs where its search runs), checked like a history; non-trivial as for histories",
-            strategy=sweep_cases().map(fix_history), n_quick=800, n_thorough=16000, valid=valid, shrink=shrink, floor=0.05),
+            strategy=sweep_cases().map(fix_history), n_quick=1600, n_thorough=24000, valid=valid, shrink=shrink, floor=0.05),
     ]
 
 
